@@ -3,7 +3,7 @@ CONSTANTS T = 9
  P = 2
  F = 1
  Serial = FALSE
- FaultSets <- AllFaultSets
+ FaultSets <- UpToTwoFaults
 INVARIANT ScheduleIndependent
 INVARIANT WriteSetsDisjoint
 INVARIANT RaisesIffFaultConsulted
